@@ -349,8 +349,8 @@ def plan(tier, seed, workdir, prop='C01'):
     p = Plan(prop, 'translation_validation')
     p.encode(ps.parse_script, rt.execute_script, rt._execute_script_helper, rt._script_function)
     rng = random.Random(seed)
-    maxbits = 5 if tier == 'quick' else 8
-    timeout = 45 if tier == 'quick' else 240
+    maxbits = 5 if tier == 'quick' else 6
+    timeout = 45 if tier == 'quick' else 60
     n = 0
     specs = []
     specs.extend(skel.shape_specs(1))
@@ -362,7 +362,7 @@ def plan(tier, seed, workdir, prop='C01'):
     if tier == 'thorough':
         d3 = list(skel.shape_specs(3))
         rng.shuffle(d3)
-        specs.extend(d3[:500])
+        specs.extend(d3[:200])
     for i, spec in enumerate(specs):
         scopes = ['global', 'function'] if (len(spec) == 1 or tier == 'thorough') else (['global'] if i % 2 == 0 else ['function'])
         for scope in scopes:
@@ -403,7 +403,7 @@ def plan(tier, seed, workdir, prop='C01'):
               'pool indices; non-trivial = reachability twin refuted and verdict decided')
     p.bounds = [f'oracle draws <= {maxbits} (a run that needs more ends both sides with "oracle exhausted", compared too)',
                 'array lengths 0..2', ('depth 1 exhaustively + 64 seeded depth-2 shapes of 320 (alternating scope)' if tier == 'quick' else 'depth <= 2 exhaustively, both scopes')
-                + ('; 500 seeded depth-3 shapes' if tier == 'thorough' else ''),
+                + ('; 200 seeded depth-3 shapes' if tier == 'thorough' else ''),
                 'value family: conditions draw from a 19-element pool of all nine value types', 'maxStatements 300 backstop (legitimate runs within the oracle bound need < 200 statements)']
     p.stubs = ['ValueArgsError message formatting', 'host functions cc/tt/aa/vv']
     p.outside = ['depth > 3; depth 3 only sampled (thorough)', 'programs using jump/label directly (C08)', 'expression semantics (C03)']
